@@ -1178,13 +1178,16 @@ def corpus(res):
     COMPOSITION block must hold exactly the expected names (+ m0).'''
     import t4eval
     n_ok = 0
-    for name, text, args, probes, comps in c09_corpus.CORPUS:
-        res.seen(('corpus', name), nontrivial=True)
-        res.count('corpus:decks')
+    runs = [(name, text, args + extra, probes, comps)
+            for name, text, args, probes, comps in c09_corpus.CORPUS
+            for extra in c09_corpus.VARIANTS]
+    for name, text, args, probes, comps in runs:
+        res.seen(('corpus', name, tuple(args)), nontrivial=True)
+        res.count('corpus:conversions')
         conv = impl.convert(text, args)
         if not conv.ok:
             res.violation('impl-violation',
-                          f'corpus deck {name} rejected: {conv.exc}: '
+                          f'corpus deck {name} {args} rejected: {conv.exc}: '
                           f'{conv.msg[:200]}', {'input': {'deck': text}},
                           found_input=True)
             continue
@@ -1202,7 +1205,7 @@ def corpus(res):
                     != [[name_value(want)]]:
                 good = False
                 res.violation('impl-violation',
-                              f'corpus deck {name}: point {point} lies in '
+                              f'corpus deck {name} {args}: point {point} lies in '
                               f'volume(s) {owners} attached to {got}, expected '
                               f'{want}', {'input': {'deck': text,
                                                     'point': list(point)}},
@@ -1212,14 +1215,14 @@ def corpus(res):
                 != {name_value(x) for x in comps}:
             good = False
             res.violation('impl-violation',
-                          f'corpus deck {name}: compositions {sorted(have)}, '
+                          f'corpus deck {name} {args}: compositions {sorted(have)}, '
                           f'expected {sorted(comps)}',
                           {'input': {'deck': text}}, found_input=True)
         n_ok += good
-    res.obligation(f'corpus ({len(c09_corpus.CORPUS)} hand-written decks: '
-                   'probe points and composition sets)',
-                   n_ok == len(c09_corpus.CORPUS),
-                   f'{n_ok} decks as expected')
+    res.obligation(f'corpus ({len(c09_corpus.CORPUS)} hand-written decks, each '
+                   f'in {len(c09_corpus.VARIANTS)} inlining modes: probe '
+                   'points and composition sets)', n_ok == len(runs),
+                   f'{n_ok} of {len(runs)} conversions as expected')
 
 
 # ---------------------------------------------------------------------------
@@ -1285,7 +1288,7 @@ def sweep_decks(res, tier, rng):
     return real
 
 
-def run(res, tier, seed, proofs_ok):
+def _run(res, tier, seed, proofs_ok, cov):
     rng = random.Random(seed)
     res.rule = ('(1) every string of length <= 6/7 over 012.-+ed, doctests, '
                 'structured spellings (sign, integer part, kept fraction, '
@@ -1301,19 +1304,23 @@ def run(res, tier, seed, proofs_ok):
                 'spellings, one deck in five with out-of-guard spellings; '
                 'non-trivial = string longer than one character, dictionary '
                 'with at least one new cell or an error, any deck')
-    witnesses(res)
-    corpus(res)
+    with cov:
+        witnesses(res)
+        corpus(res)
     tie_norm(res, tier, rng)
     sweep_spellings(res, tier, rng)
-    tie_material(res, tier, rng)
-    tie_likebut(res, tier, rng)
-    tie_likechain(res, tier, rng)
-    tie_fill(res, tier, rng)
+    with cov:
+        tie_material(res, tier, rng)
+        tie_likebut(res, tier, rng)
+        tie_likechain(res, tier, rng)
+        tie_fill(res, tier, rng)
     real = sweep_decks(res, tier, rng)
-    tie_geomcomp(res, tier, rng, [r[:4] for r in real])
-    tie_comp(res, tier, rng, [r[:4] for r in real])
+    with cov:
+        tie_geomcomp(res, tier, rng, [r[:4] for r in real])
+        tie_comp(res, tier, rng, [r[:4] for r in real])
     tie_pipeline(res, tier, rng, real)
-    tie_writecomp(res, tier, rng)
+    with cov:
+        tie_writecomp(res, tier, rng)
     # a tie that could not be evaluated (coqc error, empty sweep) must not pass
     # silently: the driver only counts violations
     if not res.violations or all(v.get('class') for v in res.violations):
@@ -1323,6 +1330,32 @@ def run(res, tier, seed, proofs_ok):
                               f'{name} could not be discharged: {detail[:300]}',
                               {'theorem_or_correspondence': name,
                                'detail': detail[:1500]}, found_input=False)
+
+
+
+def run(res, tier, seed, proofs_ok):
+    '''Witnesses, corpus and function-level ties run under a line-coverage
+    tracer restricted to the anchored functions: every line of them that is
+    not listed as outside the material path must be executed.'''
+    import c09_cov
+    cov = c09_cov.LineCov(c09_cov.anchored_functions())
+    _run(res, tier, seed, proofs_ok, cov)
+    total, missing = cov.missing(c09_cov.UNREACHABLE)
+    res.obligation('coverage: witnesses, corpus and function-level ties '
+                   'execute every line of the anchored functions '
+                   f'({total} lines of {len(cov.codes)} code objects: '
+                   'normalize_float, parse_material, parse_one_cell, apply_but, '
+                   'pot_fill, constructGeomCompT4, writeT4GeomComp, '
+                   'constructCompositionT4, writeT4Composition)', not missing,
+                   f'never executed: {missing[:6]}')
+    res.extra['anchored_lines'] = total
+    if missing:
+        res.violation('harness-error',
+                      'generated inputs no longer reach these lines of the '
+                      f'anchored code: {missing[:8]}',
+                      {'theorem_or_correspondence': 'coverage',
+                       'input': {'lines': [list(m) for m in missing[:20]]}},
+                      found_input=False)
 
 
 def replay(path):
